@@ -273,6 +273,15 @@ class Run(object):
             else:
                 at = rc.a_mp_unreach(1, 128, rc.vpn_route(VPN[idx][1], rc.rd(VPN[idx][0]), [], raw_label=rc.WITHDRAW_LABEL))
             r.peer_send(self.c, rc.update(withdrawn=b''.join(rc.prefix4(PREFIXES[i]) for i in op[1]), attrs=at))
+        elif k == 'vpn-wd2':
+            # the peer withdraws two VPNv4 routes in one MP_UNREACH_NLRI (one of them is often not in the table)
+            for idx in (op[1], op[2]):
+                if idx in self.vpn_in:
+                    del self.vpn_in[idx]
+                    changed['received'].add('mpls_vpn')
+                    self.nontrivial = True
+            nl = b''.join(rc.vpn_route(VPN[i][1], rc.rd(VPN[i][0]), [], raw_label=rc.WITHDRAW_LABEL) for i in (op[1], op[2]))
+            r.peer_send(self.c, rc.update(attrs=rc.a_mp_unreach(1, 128, nl)))
         elif k in ('vpn-ann2', 'fs-ann2'):
             side = op[-1]
             act = 'received' if side == 'peer' else 'send'
@@ -461,6 +470,8 @@ op_strategy = st.one_of(
     st.tuples(st.just('vpn-wd'), st.integers(0, 2), side).map(list),
     st.tuples(st.just('vpn-ann2'), st.integers(0, 2), st.sampled_from([16, 17]), st.integers(0, 2), st.sampled_from([16, 17]), side).map(
         lambda t: ['vpn-ann2', t[1], t[2], (t[3] if t[3] != t[1] else (t[1] + 1) % 3), t[4], t[5]]),
+    st.tuples(st.just('vpn-wd2'), st.integers(0, 2), st.integers(0, 2)).map(
+        lambda t: ['vpn-wd2', t[1], (t[2] if t[2] != t[1] else (t[1] + 1) % 3)]),
     st.tuples(st.just('fs-ann2'), st.integers(0, 3), st.integers(0, 3), side).map(
         lambda t: ['fs-ann2', t[1], (t[2] if t[2] != t[1] else (t[1] + 1) % 4), t[3]]),
     st.tuples(st.just('xfam'), idxs, st.sampled_from(['fs-ann', 'fs-wd', 'vpn-ann', 'vpn-wd']), st.integers(0, 2),
@@ -488,7 +499,9 @@ def run_shard(spec, seed, col, tier):
                  ['vpn-ann', 1, 16, 'rest'], ['mp-both', 'vpn', 0, 1, 16, 'rest'], ['fs-ann', 1, 'rest'], ['mp-both', 'fs', 0, 1, 16, 'rest'],
                  ['mp-both', 'vpn', 0, 1, 16, 'peer'], ['fs-ann', 3, 'rest'], ['fs-wd', 3, 'rest'],
                  # (the same flowspec rule announced alone and together with a withdrawal: other attributes for the same rule)
-                 ['fs-ann', 0, 'peer'], ['mp-both', 'fs', 0, 1, 16, 'peer']]
+                 ['fs-ann', 0, 'peer'], ['mp-both', 'fs', 0, 1, 16, 'peer'],
+                 # (two VPNv4 routes withdrawn in one message, the first one absent when only route 0 was announced)
+                 ['vpn-wd2', 2, 0]]
         seqs = list(itertools.product(range(len(alpha)), repeat=spec['len']))[spec['part']::spec['parts']]
         for s in seqs:
             ops = [alpha[i] for i in s]
